@@ -106,7 +106,24 @@ def check_case(case) -> Obs:
     flu = World(specs, device="fluent", grid=0.01, wl_kwargs=kw)
     troughs = trough_indices(specs)
     saw_trough = saw_plate = False
-    for k, op in enumerate(case["ops"]):
+    ops = list(case["ops"])
+    # liquid of unknown composition moved on: a plain dispense into an initially empty well, then a transfer out of it into a
+    # well whose content is known (both devices have to dilute that well in the same way)
+    for i_, sp_ in enumerate(specs):
+        if sp_["kind"] != "plate":
+            continue
+        cells = [(r_, c_) for r_ in range(sp_["rows"]) for c_ in range(sp_["cols"])]
+        empty_ = [rc for rc in cells if sp_["init"][rc[0]][rc[1]] == 0]
+        filled_ = [rc for rc in cells if sp_["init"][rc[0]][rc[1]] > 0]
+        if empty_ and filled_:
+            e_, f_ = empty_[0], filled_[-1]
+            ops = [
+                {"op": "dispense", "lw": i_, "wells": {"t": "scalar", "w": [e_[0], e_[1]]}, "vols": {"t": "scalar", "v": {"f": 0.3}}, "label": None, "ints": False},
+                {"op": "transfer", "src": i_, "dst": i_, "sw": {"t": "scalar", "w": [e_[0], e_[1]]}, "dw": {"t": "scalar", "w": [f_[0], f_[1]]}, "vols": {"t": "scalar", "v": {"f": 0.5}}, "wash": 1, "pb": "auto", "label": "unknown liquid", "fail_side": "src", "kw": {}, "ints": False},
+            ] + ops
+            obs.cls("unknown-liquid-moved-on")
+            break
+    for k, op in enumerate(ops):
         op = dict(op)
         kind = op["op"]
         if kind == "distribute":
